@@ -18,7 +18,12 @@ import (
 type c01Case struct {
 	Schema int   `json:"schema"` // 0 = {t1}, 1 = {t1,t2,v1}
 	Events []int `json:"events"` // 0..13 insert alphabet[i]; 14 Flush(t1); 15 FlushAll
+	// Start: events run before the enumerated ones (a non-initial start state; checked like the rest)
+	Start []int `json:"start,omitempty"`
 }
+
+// start states: empty; two keys on disk (periods 1 s and 2 s) plus a point of the first key's next period in memory
+func c01Starts() [][]int { return [][]int{nil, {0, 3, 15, 10}} }
 
 const c01NEvents = 16
 
@@ -49,6 +54,9 @@ func c01Describe(cs c01Case) interface{} {
 }
 
 func c01Run(c *fw.Ctx, cs c01Case, replay bool) {
+	if len(cs.Start) > 0 {
+		cs = c01Case{Schema: cs.Schema, Events: append(append([]int{}, cs.Start...), cs.Events...)}
+	}
 	alpha := pointAlphabet()
 	tables, cfg := c01Tables(cs.Schema)
 	dir := newDir(c)
@@ -148,7 +156,8 @@ func init() {
 			total := ipow(c01NEvents, n)
 			var idx int64
 			for schema := 0; schema < 2; schema++ {
-				for i := int64(0); i < total; i++ {
+				for si := int64(0); si < total*int64(len(c01Starts())); si++ {
+					i, start := si%total, c01Starts()[si/total]
 					idx++
 					if !c.Mine(idx) {
 						continue
@@ -157,7 +166,7 @@ func init() {
 						c.Incomplete(fmt.Sprintf("time budget used up at case %d of %d (length %d)", idx, 2*total, n))
 						return
 					}
-					cs := c01Case{Schema: schema, Events: seqFromIndex(i, c01NEvents, n)}
+					cs := c01Case{Schema: schema, Start: start, Events: seqFromIndex(i, c01NEvents, n)}
 					c.Eval(1)
 					c.Trace(1)
 					if c01Collides(cs) {
@@ -167,7 +176,7 @@ func init() {
 					c01Run(c, cs, false)
 				}
 			}
-			c.R.Bound = fmt.Sprintf("all sequences of length <= %d over %d events, 2 schemas", n, c01NEvents)
+			c.R.Bound = fmt.Sprintf("all sequences of length <= %d over %d events, 2 schemas, from the empty database and from a state with two keys on disk and one point in memory", n, c01NEvents)
 		},
 		Replay: func(c *fw.Ctx, raw json.RawMessage) {
 			var cs c01Case
